@@ -62,6 +62,9 @@ func (s *shape) inner() []int {
 	return in
 }
 
+// shapeCode >= 0 fixes the shape choices of the next genShape call (mixed radix code).
+var shapeCode = -1
+
 // genShape enumerates (one sxChoose per inserted tip) every labelled unrooted
 // tree without degree-2 nodes on n >= 3 tips exactly once: 1, 4, 26, 236 for
 // n = 3..6. With binaryOnly only edge subdivisions are used: 1, 3, 15, 105.
@@ -79,7 +82,14 @@ func genShape(n int, binaryOnly bool) *shape {
 		if !binaryOnly {
 			k += len(in)
 		}
-		ch := sxChoose("ins", k)
+		var ch int
+		if shapeCode >= 0 {
+			// fixed shape (harnesses that spend their paths on something else)
+			ch = shapeCode % k
+			shapeCode /= k
+		} else {
+			ch = sxChoose("ins", k)
+		}
 		t := s.addNode(i)
 		if ch < len(es) {
 			u, v := es[ch][0], es[ch][1]
@@ -101,6 +111,9 @@ func genShape(n int, binaryOnly bool) *shape {
 func rootShape(s *shape, rooted bool) int {
 	if !rooted {
 		in := s.inner()
+		if shapeCode >= 0 {
+			return in[0]
+		}
 		return in[sxChoose("root", len(in))]
 	}
 	es := s.edges()
